@@ -125,6 +125,15 @@ func (g *cgen) inlines(depth int, multiline, inLink bool) (md, html []byte) {
 		case aEsc:
 			p := nondetByte()
 			assume(classOK(p, 'P'))
+			if g.fmtSafe {
+				// the formatter's escape set plus the neutral punctuation of DESIGN.md §C20
+				ok := false
+				const set = "\\[]*_-=<>&#~`,;:'\"?/(){}^%$@|"
+				for i := 0; i < len(set); i++ {
+					ok = vor(ok, p == set[i])
+				}
+				assume(ok)
+			}
 			md = append(md, '\\', p)
 			html = escText(html, p)
 		case aEnt:
